@@ -1179,7 +1179,7 @@ def run(ctx: common.Ctx):
         ctx.broken.append({"kind": "translator", "error": f"{type(e).__name__}: {str(e)[:1500]}"})
     # C04_genC_* (memory safety of the implementation-shaped C model in both directions, documented exits only, no
     # serialization assert can fail, prior-state independence of decoding) live in Properties/C01Refine.lean
-    _refine = ["C01Refine"] if (common.LEAN / "NunavutVerif" / "Properties" / "C01Refine.lean").exists() else []
+    _refine = [m for m in ("C01Refine", "C01RefineCpp") if (common.LEAN / "NunavutVerif" / "Properties" / f"{m}.lean").exists()]
     drivers = ctx.prove(["C04"] + _refine, exes=["variant", "codec"], name_filter=(lambda n: n.startswith("C04_")) if _refine else None)
     vdrv = drivers.get("variant")
     ctx.rule = ("V: corpus op sequences; every op sequence of length <= L over one object slot and every op pair over two slots for every union of two "
